@@ -40,6 +40,7 @@ func init() {
 		badPairs[[2]string{a, "="}] = true
 	}
 	badPairs[[2]string{"ident", "() block"}] = true
+	badPairs[[2]string{"ident", "+"}] = true // "u" followed by "+" would start a unicode-range
 	badPairs[[2]string{"|", "|"}] = true
 	badPairs[[2]string{"/", "*"}] = true
 }
